@@ -4,6 +4,7 @@
 -/
 import NngModel.Model.Rep
 import NngModel.Spec.Rep
+import NngModel.Generated.Base
 namespace Nng.RepProofs
 open Nng Nng.Rep Nng.RepSpec
 
